@@ -161,15 +161,15 @@ class Ctx:
             self.violation(prop or self.prop, f'model {res["name"]} {what}: invariant violated', rp)
 
     # ---------------------------------------------------------------- harness drivers (R3)
-    def run_driver(self, build, driver, shards=None, extra='', timeout=900, tier=None):
+    def run_driver(self, build, driver, shards=None, extra='', timeout=900, tier=None, env=None, tag=''):
         """runs verif-hx <driver> for each shard in parallel; returns list of trace paths"""
         shards = shards or 1
         hx = self.hx(build)
         tier = tier or self.tier
         def one(k):
-            path = os.path.join(self.scratch, f'{driver}.{os.path.basename(build)[-12:]}.{k}.ndjson')
+            path = os.path.join(self.scratch, f'{driver}{tag}.{os.path.basename(build)[-12:]}.{k}.ndjson')
             ex = f'{k}/{shards}' + ((',' + extra) if extra else '')
-            rc, out = sh([hx, driver, tier, str(self.seed), path, ex], timeout=timeout)
+            rc, out = sh([hx, driver, tier, str(self.seed), path, ex], timeout=timeout, env=env)
             return k, path, rc, out
         paths = []
         t0 = time.time()
